@@ -50,6 +50,8 @@ func runC20(c *Ctx) {
 	c.guard("R20-key", func() { c20Key(c) })
 	r.Rule("R20-squares", "a counted loop over squares in an evaluator visits a set of squares closed under the board mirror (a necessary condition of colour-blindness: a per-square term summed over an asymmetric range treats the two sides differently)", 1)
 	c.guard("R20-squares", func() { c20Squares(c) })
+	r.Rule("R20-mirror", "a function of a historical evaluator that names a castling-rights constant of one colour names its mirror image too (a necessary condition of colour-blindness; rights obtained through board.CastlingRights(colour) name none)", 1)
+	c.guard("R20-mirror", func() { c20Mirror(c) })
 }
 
 func inEnginePkgs(fn *ssa.Function) bool {
@@ -768,20 +770,74 @@ func c20Book(c *Ctx) {
 		}
 	}
 	for _, ev := range events {
-		host, b := ev.host, ev.b
-		genEqual := func(v ssa.Value, at *ssa.BasicBlock, depth int) (ssa.Value, ssa.Value, ssa.Value, bool) {
-			return c.genEqual(host, v, at, depth)
+		// where the recorded move is decided: at the recording itself, or - when it is the first result of a helper of
+		// the package that reports failure by an error the recording is guarded against - at each successful return of
+		// that helper, whose values are mapped back to the caller's through its parameters
+		type decision struct {
+			host *ssa.Function
+			b    *ssa.BasicBlock
+			key  ssa.Value
+			up   func(ssa.Value) ssa.Value
 		}
-		{
+		decisions := []decision{{ev.host, ev.b, ev.key, func(v ssa.Value) ssa.Value { return v }}}
+		if ex, isEx := stripConv(ev.key).(*ssa.Extract); isEx && ex.Index == 0 {
+			if hc, isCall := ex.Tuple.(*ssa.Call); isCall {
+				h := hc.Call.StaticCallee()
+				if h != nil && h.Blocks != nil && h.Pkg == ev.host.Pkg && h.Signature.Results().Len() >= 2 && isErrorType(h.Signature.Results().At(h.Signature.Results().Len()-1).Type()) {
+					last := h.Signature.Results().Len() - 1
+					guarded := false
+					for _, ge := range edgeGuards(ev.b) {
+						bo, isBo := ge.cond.(*ssa.BinOp)
+						if !isBo {
+							continue
+						}
+						fx, isFx := stripConv(bo.X).(*ssa.Extract)
+						cst, isC := bo.Y.(*ssa.Const)
+						if isFx && isC && cst.IsNil() && fx.Tuple == ssa.Value(hc) && fx.Index == last && ((bo.Op == token.NEQ && !ge.pol) || (bo.Op == token.EQL && ge.pol)) {
+							guarded = true
+						}
+					}
+					var ds []decision
+					up := func(v ssa.Value) ssa.Value {
+						if prm, ok := stripConv(v).(*ssa.Parameter); ok {
+							for i, q := range h.Params {
+								if q == prm && i < len(hc.Call.Args) {
+									return hc.Call.Args[i]
+								}
+							}
+						}
+						return v
+					}
+					for _, hb := range h.Blocks {
+						ret, isRet := hb.Instrs[len(hb.Instrs)-1].(*ssa.Return)
+						if !isRet || len(ret.Results) != last+1 {
+							continue
+						}
+						if cst, isC := ret.Results[last].(*ssa.Const); !isC || !cst.IsNil() {
+							continue // a failing return: the recording does not run
+						}
+						ds = append(ds, decision{h, hb, returnedValue(ret, 0), up})
+					}
+					if guarded && len(ds) > 0 {
+						decisions = ds
+					}
+				}
+			}
+		}
+		for _, d := range decisions {
+			host, b := d.host, d.b
+			genEqual := func(v ssa.Value, at *ssa.BasicBlock, depth int) (ssa.Value, ssa.Value, ssa.Value, bool) {
+				return c.genEqual(host, v, at, depth)
+			}
 			{
 				n++
-				key := ev.key // the candidate move
+				key := d.key // the candidate move
 				pos, turn, parsed, ok := genEqual(key, b, 0)
 				if !ok {
-					bad = joinNonEmpty(bad, "the recorded move is "+pathExpr(key)+", which is not established to be a generated move equal to the parsed text")
+					bad = joinNonEmpty(bad, "the recorded move is "+pathExpr(ev.key)+", which is not established to be a generated move equal to the parsed text")
 					continue
 				}
-				if pv := c.provenance(host, parsed); !pv.via("ParseMove") {
+				if pv := c.provenance(ev.host, d.up(parsed)); !pv.via("ParseMove") {
 					bad = joinNonEmpty(bad, "the move compared with is not the parsed text")
 				}
 				// accepted by Position.Move on that same position
@@ -806,7 +862,7 @@ func c20Book(c *Ctx) {
 				var fenV ssa.Value
 				if pex != nil && tex != nil && pex.Tuple == tex.Tuple && pex.Index == 0 && tex.Index == 1 {
 					if dc, ok := pex.Tuple.(*ssa.Call); ok && dc.Call.StaticCallee() == decode && len(dc.Call.Args) == 1 {
-						fenV = dc.Call.Args[0]
+						fenV = d.up(dc.Call.Args[0])
 					}
 				}
 				filed := false
